@@ -175,7 +175,17 @@ def one(rng, acc, d, record=True):
             except Exception:
                 acc.count("refused_commits")
                 log.append(["refused-commit", "patch open"])
+        passed = None
+        if "manifest_exts" in kw:
+            import copy as _copy
+            passed = _copy.deepcopy(kw["manifest_exts"])  # the caller's own object is handed over ...
+            kw["manifest_exts"] = passed
         rec.commit_patch(**kw)
+        if passed is not None:
+            passed["changed-by-caller-after-commit"] = c  # ... and the caller goes on using it: not the record's business
+            if passed.get("k"):
+                passed["k"].append("later")
+            acc.count("exts_objects_mutated_after_commit")
         log.append(["commit", kw.get("manifest_exts", "inherit")])
         bad = check_manifest(rec, exts, acc)
         if bad:
@@ -334,7 +344,7 @@ def run_unit(u, acc):
 
 def inconclusive(cov):
     c = cov["counters"]
-    return [f"monitor counter {k} is zero" for k in ("manifest_checks", "refused_commits", "interrupted_sessions_resumed", "stub_patch_exts_compared_nonempty", "stubs_compared", "stub_patches_joined") if not c.get(k)]
+    return [f"monitor counter {k} is zero" for k in ("manifest_checks", "refused_commits", "exts_objects_mutated_after_commit", "interrupted_sessions_resumed", "stub_patch_exts_compared_nonempty", "stubs_compared", "stub_patches_joined") if not c.get(k)]
 
 
 def replay(case, acc):
